@@ -122,6 +122,14 @@ def main():
     for src, dst in ((a.patch, os.path.join(d, 'patch.diff')), (a.demo, os.path.join(d, os.path.basename(a.demo)))):
         if os.path.abspath(src) != os.path.abspath(dst):
             shutil.copy(src, dst)
+    old = {}
+    try:
+        old = json.load(open(os.path.join(d, 'meta.json')))
+    except (OSError, ValueError):
+        pass
+    for k in ('needs_to_manifest', 'breaks', 'description_from_seeder'):      # keep the seeder's description across re-evaluations
+        if old.get(k) and not meta.get(k):
+            meta[k] = old[k]
     with open(os.path.join(d, 'meta.json'), 'w') as f:
         json.dump(meta, f, indent=1)
     print('filed under', d)
